@@ -49,6 +49,10 @@ KNOWN_OPERATORS = {
     "chartparse.chart.Chart": {"__getitem__"},
     "chartparse.hints.Comparable": {"__lt__"},  # a typing Protocol (annotation only)
 }
+# classes whose construction runs code of the package after the fields are set: exactly the validators the C15 rules specify
+# (they raise ValueError for an untrustworthy tempo map and store nothing).  A __post_init__ / __init__ anywhere else makes
+# "C(field=value, ...)" something other than "an object with these fields" (it can reject or rewrite them).
+KNOWN_POST_INIT = {"chartparse.sync.SyncTrack", "chartparse.sync.BPMEvent", "chartparse.sync.BPMEvents"}
 # package names that coincide with a builtin, confirmed by reading: `chartparse.tick.sum(a, b)` adds two tick counts and is only
 # ever called qualified; inside tick.py no bare `sum(` occurs (checked below)
 SHADOWS_OK = {"chartparse.tick.sum"}
@@ -239,14 +243,20 @@ def check_model(ctx: Ctx, rep: Report) -> None:
 
     # ---------------------------------------------------------------- operator protocols, constructors
     for cq, c in sorted(prog.classes.items()):
-        defined = {n for n in c.methods if n in OPERATOR_DUNDERS}
+        defined = {n for n in c.methods if n in OPERATOR_DUNDERS} | \
+                  {n for n, (val, ann, ln) in c.body_assigns.items() if n in OPERATOR_DUNDERS and val is not None}
+        for n, (val, ann, ln) in c.body_assigns.items():
+            if val is not None and n.startswith("__") and n.endswith("__") and n not in OPERATOR_DUNDERS and \
+                    n not in ("__slots__", "__doc__", "__module__", "__qualname__", "__annotations__", "__all__", "__test__"):
+                r_hook.fail(f"{cq}.{n}", f"{cq} binds the special name `{n}` by assignment in its class body: the special method in force "
+                                         f"is not the one the class's definitions and decorators imply", stmt=n, file=c.module.path, line=ln)
         want = KNOWN_OPERATORS.get(cq, set())
         r_hook.inst(f"{cq}: operator protocols {sorted(defined) or '-'}", nontrivial=bool(defined))
         for n in sorted(defined - want):
-            f = c.methods[n]
+            f = c.methods.get(n)
             r_hook.fail(f"{cq}.{n}", f"{cq} defines `{n}`: the rules treat this operator on its instances structurally (truthiness = "
                                      f"not None, value equality by fields, ...); a user-defined protocol is not modelled there",
-                        stmt=n, file=c.module.path, line=getattr(f.node, "lineno", 0))
+                        stmt=n, file=c.module.path, line=getattr(f.node, "lineno", 0) if f is not None else c.body_assigns[n][2])
         for n in sorted(want - defined):
             r_hook.fail(f"{cq}.{n}", f"{cq} no longer defines `{n}`, which the rules rely on (wrapper inlined / value equality)", stmt=n,
                         file=c.module.path, line=getattr(c.node, "lineno", 0))
@@ -259,6 +269,10 @@ def check_model(ctx: Ctx, rep: Report) -> None:
             if "__init__" in c.methods:
                 r_ctor.fail(f"{cq}.__init__", f"{cq} is a dataclass with a hand-written __init__", stmt="__init__", file=c.module.path,
                             line=getattr(c.methods["__init__"].node, "lineno", 0))
+            if "__post_init__" in c.methods and cq not in KNOWN_POST_INIT:
+                r_ctor.fail(f"{cq}.__post_init__", f"{cq} runs a __post_init__ that the specification does not know: constructing it can now "
+                                                   f"fail or differ from 'an object with exactly these fields' for some field values",
+                            stmt="__post_init__", file=c.module.path, line=getattr(c.methods["__post_init__"].node, "lineno", 0))
             pi = c.find_method("__post_init__")
             if pi is not None:
                 try:
